@@ -256,7 +256,36 @@ def conservation(ctx, rule="C04.conservation"):
     ctx.floor(rule, 5)
 
 
+def register_index(ctx, rule="C04.register-index"):
+    ctx.explain(f"{rule}: the `registers` argument of Compiler.compile is Program.register - positional over the *active* "
+                "modes.  In every compiler that accepts mode deletion / creation (_Delete, _New_modes among its "
+                "primitives) it is never subscripted with a value derived from a mode index (.ind): positions and "
+                "indices differ as soon as a lower mode has been deleted.")
+    from ..tables import CompilerTable
+    ct = CompilerTable(ctx.tree)
+    n = 0
+    for cn, cls in sorted(ct.compilers.items()):
+        if not ({"_Delete", "_New_modes"} & ct.primitives[cn]):
+            continue
+        f = cls.methods.get("compile")
+        if f is None or "registers" not in f.params:
+            continue
+        n += 1
+        bad = None
+        for x in walk_no_nested(f.node):
+            if isinstance(x, ast.Subscript) and dotted(x.value) == "registers" and not isinstance(x.slice, ast.Slice):
+                d = derives(f.node, x.slice)
+                if any(isinstance(e, ast.Attribute) and e.attr == "ind" for e in d.exprs):
+                    bad = x
+        ctx.ob(rule, f.site, bad is None, "" if bad is None else
+               f"`{ast.unparse(bad)}` looks a register up by position with a mode index: after `Del | q[0]` the command "
+               "lands on another mode", role="registers-by-ind", line=(bad.lineno if bad is not None else f.node.lineno))
+    ctx.require(n >= 3, f"only {n} compilers that accept deletions implement compile()")
+    ctx.floor(rule, 3)
+
+
 def rules(ctx):
+    register_index(ctx)
     dep_key(ctx)
     grid_key(ctx)
     partition(ctx)
